@@ -87,6 +87,33 @@ Theorem C19_toc_image_maps_each_layer :
 Proof. intros blob H len payload etoc k ls os st0 d E0. exact (toc_map_any_schedule H len payload etoc k ls os st0 d E0). Qed.
 Print Assumptions C19_toc_image_maps_each_layer.
 
+(* End to end for one layer: whatever the initial store and the schedule, once layer i's conversion (which returned
+   descriptor d) has committed, the store's uncompressed label of d's digest is the DiffID of a blob of that digest, and
+   (external TOC) once it has recorded its TOC, the image serves d's digest a TOC written for a blob of that digest. *)
+Theorem C19_end_to_end :
+  forall (blob : Type) (H len : blob -> N) (payload : blob -> blob) (tocdg : blob -> N) (etoc : blob -> N * N)
+         (k : kind) (ls : list (@layer blob)) (os : list op) (st0 : st) (i : nat) (l : layer) (d : desc),
+    nth_error ls i = Some l -> convert H len payload tocdg k l = Some d -> In (Commit i) os ->
+    (exists b, commits_to H len payload k ls os (d_digest d) b
+               /\ alookup (sstore (exec H len payload etoc k ls st0 os)) (d_digest d) = Some (H (payload b)))
+    /\ (is_ext k = true -> In (Record i) os -> smap st0 = [] ->
+          exists b, records_to H len payload k ls os (d_digest d) b
+                    /\ fetch (finalize (smap (exec H len payload etoc k ls st0 os))) (d_digest d) = Some (etoc b)).
+Proof. intros blob H len payload tocdg etoc k ls os st0 i l d. exact (end_to_end H len payload tocdg etoc k ls os st0 i l d). Qed.
+Print Assumptions C19_end_to_end.
+
+(* "... to the TOC that verifies it": for any relation verifies(TOC blob, layer blob) that holds between each blob and
+   the TOC written for it, the TOC served for a converted layer digest verifies a blob of that digest. *)
+Theorem C19_toc_image_verifies :
+  forall (blob : Type) (H len : blob -> N) (payload : blob -> blob) (etoc : blob -> N * N)
+         (verifies : N * N -> blob -> Prop) (k : kind) (ls : list (@layer blob)) (os : list op) (st0 : st) (d : N),
+    (forall b, verifies (etoc b) b) -> smap st0 = [] ->
+    (exists b, records_to H len payload k ls os d b) ->
+    exists b t, records_to H len payload k ls os d b /\ H b = d
+                /\ fetch (finalize (smap (exec H len payload etoc k ls st0 os))) d = Some t /\ verifies t b.
+Proof. intros blob H len payload etoc verifies k ls os st0 d. exact (toc_image_verifies H len payload etoc verifies k ls os st0 d). Qed.
+Print Assumptions C19_toc_image_verifies.
+
 (* Duplicate keys (same converted digest from several layers or from a retry): the last writer for that key wins. *)
 Theorem C19_toc_image_last_writer_wins :
   forall (blob : Type) (H len : blob -> N) (payload : blob -> blob) (etoc : blob -> N * N)
